@@ -20,6 +20,8 @@ pub struct SolveOp {
     /// the internal problem (they are only read by the constructor)
     pub flip_presolve: bool,
     pub flip_equil: bool,
+    /// toggle settings.verbose before this solve
+    pub flip_verbose: bool,
 }
 
 impl Default for SolveOp {
@@ -29,6 +31,7 @@ impl Default for SolveOp {
             max_iter: 60,
             flip_presolve: false,
             flip_equil: false,
+            flip_verbose: false,
         }
     }
 }
@@ -132,6 +135,9 @@ pub fn exec_history_to(
         }
         if op.flip_equil {
             solver.settings.equilibrate_enable = !solver.settings.equilibrate_enable;
+        }
+        if op.flip_verbose {
+            solver.settings.verbose = !solver.settings.verbose;
         }
         let r = sv_solve(sid, &mut solver);
         let bad = r.is_err();
